@@ -104,6 +104,7 @@ def default_render(ns, na, ne, rng: random.Random | None = None, plain=False):
         "ghost": any(lo > 0 or lo + d <= 0 for lo, d in zip(slows, sd)),
         "v0_int": rng.random() < 0.25,
         "v0_f32": rng.random() < 0.2,
+        "v0_on_instance": rng.random() < 0.25,
         "adiv": rng.choice([1, 1, 1, 2, 4, 2 ** 30]),       # 2^30: distinct actions closer than 1e-8
         "aoffset": rng.choice([0, 0, 0, 1000000]),           # distinct actions closer than 1e-5 relative
         "sdiv": rng.choice([1, 1, 1, 2, 4]),
@@ -264,8 +265,9 @@ def make_problem(mdp: dict):
                 return nxt_vec, rew[s, a, e]
             return j_states[nxt[s, a, e]], rew[s, a, e]
 
-        def initial_value(self, state):
-            return v0[self._row(state)]
+        if not r.get("v0_on_instance"):
+            def initial_value(self, state):
+                return v0[self._row(state)]
 
     if pol0 is not None and not r.get("init_policy_on_instance"):
         def initial_policy(self, state):
@@ -274,6 +276,9 @@ def make_problem(mdp: dict):
         TabularProblem.initial_policy = initial_policy
 
     instance = TabularProblem()
+    if r.get("v0_on_instance"):
+        # a warm start assigned on the instance (the class keeps the default initial_value)
+        instance.initial_value = lambda state: v0[instance._row(state)]
     if pol0 is not None and r.get("init_policy_on_instance"):
         # a problem that chooses its starting heuristic per instance (assigned in its constructor)
         instance.initial_policy = lambda state: pol0[instance.state_to_index(state)]
